@@ -310,8 +310,7 @@ def _decide(pid: str, tier: str, seed: int, reg: Any, own: list, results: dict, 
             checker_errors.append(f"{t}: vacuity canary failed (assumptions inconsistent)")
         if r["paths"] == 0 and not r["errors"]:
             checker_errors.append(f"{t}: no feasible path (contradictory precondition)")
-        n_unsup_lock = lk.get("unsupported", 0) if lk else 0
-        if len(r["unsupported"]) > n_unsup_lock:
+        if r["unsupported"]:   # a path that leaves the verified subset is never accepted, whatever the lock says
             for u in r["unsupported"][:3]:
                 checker_errors.append(f"{t}: outside subset: {u['what']}")
         names_now = set()
@@ -520,7 +519,9 @@ def _decide(pid: str, tier: str, seed: int, reg: Any, own: list, results: dict, 
         json.dump(ev, fh, indent=1, default=str)
     with open(os.path.join(VERIF, "out", f"{pid}.units.json"), "w") as fh:
         json.dump(results, fh, indent=1, default=str)
-    if args.update_lock:
+    if args.update_lock and checker_errors:
+        print(f"{pid}: lock NOT updated: the run has checker errors (a degraded state is never recorded as the reference)")
+    elif args.update_lock:
         os.makedirs(os.path.join(VERIF, "locks"), exist_ok=True)
         newlock = {"units": {}}
         if args.only and os.path.exists(lock_path):  # a filtered run only refreshes the units it ran
